@@ -5,3 +5,4 @@ import StirVerif.C11.Proofs
 import StirVerif.C11.Props
 import StirVerif.C06.Props
 import StirVerif.C01.Props
+import StirVerif.C18.Props
